@@ -8,6 +8,10 @@
          ra <x> <y>                   out: ok <angle>      (relative_angle)
          tp|tc <kind 0=polar 1=cart> <a> <b> <c> <width> <height> <depth> <flag 0/1>
                                       out: ok <kind> <a> <b> <c> <width> <height> <depth> <flag> | assert
+         tps|tcs <block> | <block> | …   (block = the 8 fields of tp/tc; at least one block)
+                                      out: <answer of block 1> | <answer of block 2> | …   — the blocks one Objects
+                                      rendering item yields after convert_objects_to_polar / _to_cartesian
+                                      (model of the MetadataSourceModifyBlockFormat wrapper, drained)
    `bad-op` for a malformed line. -/
 import Earverif.Model.Conversion
 import Earverif.Gen.C19_Tables
@@ -35,9 +39,31 @@ def showBlock (b : Block Float Unit Unit) : String :=
     | .cartesian x y z _ => ("1", x, y, z)
   s!"ok {kind} {showFs [a, b', c, b.width, b.height, b.depth]} {if b.cartesian then 1 else 0}"
 
+def parseBlock (args : List String) : Option (Block Float Unit Unit) :=
+  match args with
+  | [kind, a, b, c, w, h, d, flag] =>
+    match kind.toNat?, [a, b, c, w, h, d].mapM parseF, flag.toNat? with
+    | some kind, some [a, b, c, w, h, d], some flag =>
+      if kind > 1 || flag > 1 then none else some (blockOf kind a b c w h d flag)
+    | _, _, _ => none
+  | _ => none
+
+def answerStream (polar : Bool) (rest : String) : String :=
+  match (rest.splitOn "|").mapM (fun part => parseBlock (words part)) with
+  | none => "bad-op"
+  | some [] => "bad-op"
+  | some blocks =>
+    let outs := if polar then convertObjectsToPolar P blocks else convertObjectsToCartesian P blocks
+    String.intercalate " | " (outs.map fun
+      | some r => showBlock r
+      | none => "assert")
+
 def answer (line : String) : String :=
   match words line with
   | mode :: args =>
+    if mode == "tps" || mode == "tcs" then
+      answerStream (mode == "tps") (String.intercalate " " args)
+    else
     if mode == "tp" || mode == "tc" then
       match args with
       | [kind, a, b, c, w, h, d, flag] =>
